@@ -48,7 +48,8 @@ def make_script(system, r, *, dt_si, t_sample_si, policy="on_t_sample", t_max_si
         kw["t_max"] = tq(t_max_si)
     if interval_si is not None:
         kw["sampling_interval"] = tq(interval_si)
-    return RDScript(**kw)
+    from vf.gen import construct
+    return construct(r, RDScript, **kw)
 
 
 def output_arrays(out):
